@@ -179,9 +179,16 @@ def check(ctx: Ctx) -> None:
         ctx.extra["c01_conversions"] = "UnicodeEncodeError -> DumpError in _write_unicode_string"
 
     # ---- C01.e codec agreement by symbolic replay
-    with ctx.obligation("C01.e", "codec-agreement") as ob:
+    wt = rt = None
+    werr = None
+    try:
         wt = writer_terms(repo)
         rt = reader_terms(repo)
+    except AnalysisError as e:
+        werr = e
+    with ctx.obligation("C01.e", "codec-agreement") as ob:
+        if werr is not None:
+            raise AnalysisError(str(werr))
         for flags in ((True, False), (False, False)):
             rd = {op: eval_cfg(t, {P2: flags[0], P3: flags[1]}) for op, (_f, t) in rt.items()}
             rp = Replayer(rd)
@@ -206,12 +213,37 @@ def check(ctx: Ctx) -> None:
                         ob.violation(m, m.node, f"a {T} does not load back as itself (strconfig={flags}): {why}", construct=f"save_{T}: {why[:140]}")
 
     with ctx.obligation("C01.f", "dict-order", nontrivial=False) as ob:
+        if werr is not None:
+            raise AnalysisError(str(werr))
         m, term = wt["dict"] if "dict" in wt else (None, [])
         stars = [t for t in term if t[0] == "STAR"]
         ob.require(m is not None and len(stars) == 1, "save_dict loop not found")
         ob.site(m, None, "dict entries written in the dict's own iteration order", iter=stars[0][1])
         if stars[0][1] != "items(v)":
             ob.violation(m, m.node, f"save_dict iterates over {stars[0][1]} instead of the dict's own items(): insertion order is lost", construct=f"iter {stars[0][1]}")
+
+    with ctx.obligation("C01.i", "encoder-pure") as ob:
+        # the encoding of a value may depend on its exact type and content only: a container of the serializer that is
+        # keyed by a *value* being saved conflates equal values of different type (1 == 1.0 == True, 0.0 == -0.0)
+        n = 0
+        for m in ser.methods.values():
+            vparams = {p for p in m.params() if p != "self"}
+            for x in repo.own_nodes(m):
+                if isinstance(x, ast.Subscript) and isinstance(x.value, ast.Attribute) and unparse(x.value.value) in ("self", ser.name, "self.__class__"):
+                    n += 1
+                    key_names = {y.id for y in ast.walk(x.slice) if isinstance(y, ast.Name)}
+                    keyed_by_type = all(k not in vparams or m.name == "_save" and k == "tp" for k in key_names) and not (key_names & vparams)
+                    ob.site(m, x, f"serializer table access {norm(x)[:50]}", keyed_by_value=not keyed_by_type)
+                    if key_names & vparams:
+                        ob.violation(m, x, f"the serializer consults a table keyed by the value being saved (`{norm(x)}`): equal values of different type or bit pattern "
+                                           "(1, 1.0, True; 0.0, -0.0) would share one encoding -- the round trip is no longer type-exact")
+                if isinstance(x, ast.Call) and callee_attr(x) in ("get", "setdefault", "pop") and isinstance(x.func.value, ast.Attribute) and unparse(x.func.value.value) == "self" \
+                        and x.args and {y.id for y in ast.walk(x.args[0]) if isinstance(y, ast.Name)} & vparams:
+                    ob.violation(m, x, f"the serializer consults a table keyed by the value being saved (`{norm(x)[:60]}`)")
+            for x in repo.own_nodes(m):
+                if isinstance(x, ast.Assign) and m.name != "__init__" and any(unparse(t) == "self._write" for t in x.targets):
+                    ob.violation(m, x, "the serializer's sink is re-bound while saving: bytes can be re-ordered or replayed")
+        ob.require(n >= 2, f"{n} serializer table accesses (floor 2: the type-keyed dispatch cache)")
 
     # ---- C01.h dump-before-send
     with ctx.obligation("C01.h", "dump-before-send") as ob:
